@@ -161,7 +161,7 @@ verus! {
 //@item solution/src/tour.rs Tour::get_insert_positions
 //@retname r
 //@sig
-    requires self.wf(), self.network.has(segment.start), self.network.has(segment.end),
+    requires self.wf(), self.network.has(segment.start), self.network.has(segment.end), tour_len_ok(self.nodes@),
     ensures
         self.network.sp_node(segment.start).sp_is_depot() ==> r.0 == 0,
         !self.network.sp_node(segment.start).sp_is_depot() ==> self.is_start_pos(segment.start, r.0 as int), // @obl C12.get_insert_positions.start_pos
@@ -201,7 +201,7 @@ verus! {
 //@item solution/src/tour.rs Tour::conflict
 //@retname r
 //@sig
-    requires self.wf(), self.network.has(segment.start), self.network.has(segment.end),
+    requires self.wf(), self.network.has(segment.start), self.network.has(segment.end), tour_len_ok(self.nodes@),
         seg_ordered(&self.network, segment.start, segment.end),
     ensures
         exists|s: int, e: int| {
@@ -224,7 +224,7 @@ verus! {
 //@item solution/src/tour.rs Tour::sub_path
 //@retname r
 //@sig
-    requires self.wf(), self.network.has(segment.start), self.network.has(segment.end),
+    requires self.wf(), self.network.has(segment.start), self.network.has(segment.end), tour_len_ok(self.nodes@),
         // "A segment is a pair of non-depot node ids": at least not one depot taken alone
         !(self.network.sp_node(segment.start).sp_is_depot() && segment.start == segment.end),
     ensures
